@@ -27,6 +27,8 @@ for g in ("single","child","linked_child","two_parents"):
 for g in ("single","child","linked_child","chain3"): tasks.append((f"unregister_frame[{g}]", m.t_unregister_frame(g), "B"))
 for g in ("linked_child","linked_chain3","siblings"): tasks.append((f"compile_root[{g}]", m.t_compile(g, which="root"), "B"))
 for c_ in ("analyze_arguments","generate_dispatch"): tasks.append((f"loud[{c_}]", m.t_build_failure(c_, 1, False, clause="loud"), "B"))
+for wh in ("next","resolve"):
+    for na in (0,1,2): tasks.append((f"nextresolve[{wh},{na}]", m.t_next_resolve(wh, na), "B"))
 sel = sys.argv[1:] 
 for r in run_all([t for t in tasks if not sel or any(s in t[0] for s in sel)]):
     sts = {}
